@@ -701,6 +701,36 @@ class InvalidCombination(Exception):
     pass
 
 
+def shortest_float_text(bits_hex):
+    """the documented float text: shortest digits that read back as the same double, laid out as the ryu crate's `pretty`
+    printer does (plain decimal notation with a fraction for decimal exponents -5 < e <= 16, else d[.ddd]e[-]x)"""
+    import struct
+    x = struct.unpack(">d", bytes.fromhex("%016x" % int(bits_hex, 16)))[0]
+    sign = "-" if (int(bits_hex, 16) >> 63) else ""
+    x = abs(x)
+    if x == 0.0:
+        return sign + "0.0"
+    r = repr(x)
+    mant, _, ex = r.partition("e")
+    ip, _, fp = mant.partition(".")
+    digits = (ip + fp).lstrip("0")
+    e10 = (int(ex) if ex else 0) - len(fp)          # value = int(ip+fp) * 10^e10
+    stripped = digits.rstrip("0")
+    e10 += len(digits) - len(stripped)
+    digits = stripped
+    n, k = len(digits), e10
+    kk = n + k
+    if 0 <= k and kk <= 16:
+        return sign + digits + "0" * k + ".0"
+    if 0 < kk <= 16:
+        return sign + digits[:kk] + "." + digits[kk:]
+    if -5 < kk <= 0:
+        return sign + "0." + "0" * (-kk) + digits
+    if n == 1:
+        return sign + digits + "e" + str(kk - 1)
+    return sign + digits[0] + "." + digits[1:] + "e" + str(kk - 1)
+
+
 def ref_print(v, po):
     """documented text of value `v` (replay JSON shape; numbers: {'t':'int','v':str}) under printer options po"""
     t = v["t"]
@@ -721,6 +751,8 @@ def ref_print(v, po):
         return b"#t" if v["v"] else b"#f"
     if t == "int":
         return str(int(v["v"])).encode()
+    if t == "float":
+        return shortest_float_text(v["bits"]).encode()
     if t == "symbol":
         return bytes.fromhex(v["v"])
     if t == "keyword":
@@ -822,6 +854,10 @@ def print_corpus():
         out.append(V("char", v=c))
     out += [Y("foo"), Y("+"), Y("..."), Y("λx"), KW("kw"), KW("a-b"), KW("λ")]
     out += [V("bytes", v=""), V("bytes", v=bytes(range(256)).hex()), V("bytes", v="00077fff80"), V("bytes", v="414243")]
+    import struct
+    for x in (0.0, -0.0, 1.5, -2.25, 0.1, 1e15, 1e16, -1e16, 1e17, 1.2e17, 1e21, -1e21, 1e22, 1.5e300, 1e-5, 1.5e-5, 1e-6, 1e-7, -2e-7, 1.25e-7, 5e-324,
+              1.7976931348623157e308, 2.2250738585072014e-308, 123456.789, 1234567890123456.0, 12345678901234567.0, 0.001, 100.0, 1e100, 3.0e-310):
+        out.append(V("float", bits="%016x" % struct.unpack(">Q", struct.pack(">d", x))[0]))
     out += [L(I(1), I(2)), L(I(1), tail=I(2)), L(V("nil"), V("null"), V("bool", v=False)), L(L(I(1)), L()),
             V("vector", v=[]), V("vector", v=[I(1), S("a"), V("char", v=0x62)]),
             V("vector", v=[V("vector", v=[I(1)]), L(I(2), tail=Y("t")), V("bytes", v="09")]),
